@@ -109,6 +109,7 @@ pub fn blank(payments: Vec<PaymentSpec>, htlcs: Vec<HtlcSpec>, seed: u64) -> Sce
         freeze: None,
         hold: vec![],
         freeze_polls: false,
+        initial_pending: vec![],
     }
 }
 
